@@ -118,7 +118,7 @@ func signatureRule(r *core.Run, rule, recv, method, want string) {
 		r.Undecided(rule, key, "method does not resolve")
 		return
 	}
-	got := kindsOf(thrownKinds(r.W, fn, 2))
+	got := kindsOf(thrownKinds(r.W, fn, 3))
 	r.Check(got == want, rule, key, fn.Pos(), "raises exactly {"+want+"}",
 		"arithmetic error kinds raised are {"+got+"}, the property requires {"+want+"}")
 }
@@ -178,6 +178,7 @@ func zeroDivisorRule(r *core.Run, rule string, rels []string, pick func(key stri
 			// candidate guards
 			type guard struct {
 				stmt *ast.IfStmt // head of chain (dominance anchor)
+				call ast.Stmt    // or: call statement of a guard helper
 				vars map[*types.Var]bool
 			}
 			var guards []guard
@@ -213,6 +214,64 @@ func zeroDivisorRule(r *core.Run, rule string, rels []string, pick func(key stri
 				}
 				return true
 			})
+			// guard helpers: a call statement `helper(x)` of a module function whose body is such a zero test on its parameter
+			ast.Inspect(fd, func(n ast.Node) bool {
+				es, ok := n.(*ast.ExprStmt)
+				if !ok {
+					return true
+				}
+				call, ok := es.X.(*ast.CallExpr)
+				if !ok {
+					return true
+				}
+				var callee *types.Func
+				switch fx := call.Fun.(type) {
+				case *ast.Ident:
+					callee, _ = info.Uses[fx].(*types.Func)
+				case *ast.SelectorExpr:
+					callee, _ = info.Uses[fx.Sel].(*types.Func)
+				}
+				hd, hp := w.Decl(callee)
+				if hd == nil || hd.Body == nil || hd.Type.Params == nil {
+					return true
+				}
+				// parameters tested against zero with a DivisionByZero outcome inside the helper
+				var pnames []*types.Var
+				for _, f := range hd.Type.Params.List {
+					for _, nm := range f.Names {
+						if v, ok := hp.TypesInfo.Defs[nm].(*types.Var); ok {
+							pnames = append(pnames, v)
+						}
+					}
+				}
+				ast.Inspect(hd.Body, func(m ast.Node) bool {
+					ifs, ok := m.(*ast.IfStmt)
+					if !ok {
+						return true
+					}
+					thrown, ends := core.EndsInPanicOrReturn(ifs.Body)
+					if !ends || thrown == nil {
+						return true
+					}
+					t := thrown
+					if ue, ok := t.(*ast.UnaryExpr); ok && ue.Op == token.AND {
+						t = ue.X
+					}
+					if _, tn := core.ExprTypeName(core.StripConv(t, hp.TypesInfo), hp.TypesInfo); tn != "DivisionByZeroError" {
+						return true
+					}
+					for _, rv := range core.RootVars(ifs.Cond, hp.TypesInfo) {
+						for i, pv := range pnames {
+							if rv == pv && i < len(call.Args) {
+								// the helper guards argument i: a pseudo guard anchored at the call statement
+								guards = append(guards, guard{stmt: nil, call: es, vars: roots(call.Args[i])})
+							}
+						}
+					}
+					return true
+				})
+				return true
+			})
 			check := func(site ast.Node, divisor ast.Expr, what string) {
 				d := core.StripConv(divisor, info)
 				ckey := key + ": " + what + " by " + types.ExprString(d)
@@ -242,8 +301,12 @@ func zeroDivisorRule(r *core.Run, rule string, rels []string, pick func(key stri
 							shared = true
 						}
 					}
-					if shared && core.SynDominates(fd, g.stmt, site) {
-						r.OK(rule, ckey, site.Pos(), "dominated by the zero test at "+w.Pos(g.stmt.Pos())+" raising DivisionByZeroError")
+					var anchor ast.Stmt = g.call
+					if g.stmt != nil {
+						anchor = g.stmt
+					}
+					if shared && core.SynDominates(fd, anchor, site) {
+						r.OK(rule, ckey, site.Pos(), "dominated by the zero test at "+w.Pos(anchor.Pos())+" raising DivisionByZeroError")
 						return
 					}
 				}
@@ -448,7 +511,7 @@ func signatureRange(r *core.Run, rule, recv, method string, must, may []string) 
 		r.Undecided(rule, key, "method does not resolve")
 		return
 	}
-	got := thrownKinds(r.W, fn, 2)
+	got := thrownKinds(r.W, fn, 3)
 	allowed := map[string]bool{}
 	bad := ""
 	for _, k := range must {
